@@ -26,6 +26,14 @@ def r_usage_scan(ck: Checker) -> None:
     stm = loops[0].target.id  # type: ignore[attr-defined]
     usage_calls = resolved_calls(ck.prg, func, f"ngo.{CLS}._add_usage", f"ngo.{CLS}._add_usage_stm")
     ck.need(len(usage_calls) >= 3, "analyze_usage records usage through _add_usage/_add_usage_stm")
+    au = ck.func(f"{CLS}._add_usage")
+    inner_calls = resolved_calls(ck.prg, au, f"ngo.{CLS}._add_usage_stm")
+    ck.need(len(inner_calls) >= 1, "_add_usage scans its elements with _add_usage_stm")
+    lp_u = enclosing_loop(au, inner_calls[0])
+    oku, nu = every_iteration_reaches(ck, au, lp_u, inner_calls[0], None) if lp_u is not None and len(inner_calls) == 1 else (False, 0)
+    ck.add("_add_usage scans EVERY element it is given, as a whole", oku and nu > 0 and lp_u is not None and unparse(lp_u.iter) == au.params()[1] and unparse(inner_calls[0].args[0]) == unparse(lp_u.target), au, inner_calls[0],
+           f"`{fmt(inner_calls[0])}` for every element of `{unparse(lp_u.iter) if lp_u is not None else None}`: {oku}",
+           "for `ok :- covered(X,Y) : edge(X,Y).` the literal part of the conditional literal reads both positions of covered/2: if only the condition is scanned they look unused, covered/2 shrinks to covered/0 and its rules are deleted")
     # (1) statement kinds whose body literals observe predicates
     with_body = sorted(k for k in sch.nonterminals["statement"] if sch.field(k, "body") is not None)
     required = [k for k in with_body if k != "ShowTerm"]  # conditions of #show terms are observable only through OUT
@@ -341,6 +349,10 @@ def r_convert(ck: Checker) -> None:
         q = ck.prg.resolve_callee(func, c.args[0])
         if q in ck.prg.funcs and _anon_returns(ck.prg.funcs[q]):
             cands.append((c, ck.prg.funcs[q]))
+    if not cands and calls_in(func, lambda c: unparse(c.func) == "partial" and bool(c.args)):
+        ck.add("variables of the copied literal that do not occur at the use site are anonymised", False, func, func.node, "none of the callbacks convert binds with partial(...) can return the variable `_`",
+               "`a(X,Y) :- b(X,f(Y,Z,Z)).` used as `not a(P,Q)`: Z does not occur at the use site; copied as it is, `not b(P,f(Q,Z,Z))` has an unbound variable in a negative literal - the result is unsafe")
+        return
     ck.need(len(cands) == 1, "convert binds one anonymising callback with partial(...)")
     rr = cands[0][1]
     itr = ck.interp(rr)
@@ -397,6 +409,6 @@ RULES = [
     Rule("C09.F.transform", P, r_transform, extra={"C07": ("new predicate name is fresh", "every remembered name was handed out")}),
     Rule("C09.E.remove-unused", P, r_remove_unused),
     Rule("C09.A.single-copies", P, r_single_copies),
-    Rule("C09.A.convert", P, r_convert),
+    Rule("C09.A.convert", P, r_convert, extra={"C04": ("anonymised",)}),
     Rule("C09.anonymize", P, r_anonymize),
 ]
